@@ -155,8 +155,13 @@ func genVgOp(r *R) vgOp {
 	switch r.Intn(6) {
 	case 0:
 		op.Key = r.Intn(poolSize)
-	case 1, 2:
+	case 1:
 		op.Key = Pick(r, []int{8, 9}) // CA-issued: issuer differs from subject
+	case 2:
+		op.Key = 10 + r.Intn(8) // certificate lengths 796..803: every residue modulo 8
+		if r.Chance(1, 12) {
+			op.Key = 18 // SignedData larger than 65535 bytes
+		}
 	default:
 		op.Key = r.Intn(2) // mostly the cheap self-signed 2048-bit keys
 	}
